@@ -144,7 +144,7 @@ Call ==
 \* a context obtained while the property function is still running must be live
 Ctx ==
   /\ Is("ctx") /\ Adv /\ EUnch
-  /\ viol' = viol \cup If(Running /\ cur.obs.ended = "running" /\ Ev.inv = topInv /\ Ev.err # "nil", "dead_context_in_body")
+  /\ viol' = viol \cup If(Running /\ cur.obs.ended = "running" /\ Ev.inv = topInv /\ Ev.where \notin {"after", "at-cleanup"} /\ Ev.err # "nil", "dead_context_in_body")
   /\ UNCHANGED <<scen, ffBuf, topInv, runlog, prev, runinfo>>
 
 InvEnd ==
